@@ -6,7 +6,7 @@ import string
 
 import numpy as np
 
-NAME_CHARS = string.ascii_letters + string.digits + "+-*_'#@$%&()[]{}<>=/\\|!?^~`:,\""
+NAME_CHARS = string.ascii_letters + string.digits + "+-*_'#@$%&()[]{}<>=/\\|!?^~`:,\".;"
 
 
 def fits(v, w, d):
@@ -15,8 +15,11 @@ def fits(v, w, d):
 
 
 def gen_name(rng, cls=None):
-    cls = cls or ['alpha', 'alnum', 'digits', 'punct', 'mixed'][int(rng.integers(0, 5))]
+    cls = cls or ['alpha', 'alnum', 'digits', 'punct', 'mixed', 'number-like'][int(rng.integers(0, 6))]
     n = int(rng.integers(1, 6))
+    if cls == 'number-like':
+        # names that look like (parts of) numbers: a decimal point, a sign, an exponent
+        return ['0.5M', 'O.co2', '1.0', '.5', '-1.5', '1e3', '+2', 'N.3', '0.', '3.14'][int(rng.integers(0, 10))]
     pool = {'alpha': string.ascii_letters, 'alnum': string.ascii_uppercase + string.digits,
             'digits': string.digits, 'punct': "+-*_'#@", 'mixed': NAME_CHARS}[cls]
     return ''.join(pool[int(i)] for i in rng.integers(0, len(pool), n))
